@@ -173,6 +173,57 @@ def check_inplace(ctx, m, rule_d, defcls, name):
 
 
 
+def check_copy_contents(ctx, rule, m):
+    """HistogramBase.copy(): with frequencies, the three content stores are copies of the source's own stores on every path
+    (no further condition decides whether something is carried over); without, each is zeros_like its source store;
+    dtype, keep_missed and meta data are taken over in both cases."""
+    from sa.util import Env
+    HB = m.cls("HistogramBase")
+    cp = HB.methods["copy"]
+    ctx.saw(cp)
+    src = {"_frequencies": ("frequencies", "_frequencies"), "_errors2": ("errors2", "_errors2"), "_missed": ("_missed",)}
+    probs = {True: [], False: []}
+    npaths = {True: 0, False: 0}
+    for path in function_paths(cp.node):
+        if end_kind(path) != "return":
+            continue
+        inc = None
+        for s_ in path:
+            if s_[0] == "cond" and U(s_[1]) == "include_frequencies":
+                inc = s_[2]
+        if inc is None:
+            probs[True].append("a returning path does not branch on include_frequencies")
+            continue
+        npaths[inc] += 1
+        env = Env()
+        got = {}
+        for s_ in path:
+            if s_[0] == "stmt":
+                for w in writes_of(s_[1]):
+                    if w.root not in ("self",) and w.attr in ("_frequencies", "_errors2", "_missed", "_dtype", "keep_missed", "_meta_data") \
+                            and isinstance(s_[1], ast.Assign):
+                        got[w.attr] = U(env.expand(s_[1].value))
+            env.step(s_)
+        for attr, names in src.items():
+            if inc:
+                want = {f for n in names for f in (f"np.copy(self.{n})", f"self.{n}.copy()", f"np.array(self.{n})", f"np.array(self.{n}, copy=True)")}
+            else:
+                want = {f"np.zeros_like(self.{n})" for n in names}
+            if got.get(attr) not in want:
+                conds = [f"{U(s_[1])}={s_[2]}" for s_ in path if s_[0] == "cond" and U(s_[1]) != "include_frequencies"]
+                probs[inc].append(f"{attr} <- `{got.get(attr)}`" + (f" when {conds}" if conds else ""))
+        for attr, want in (("_dtype", ("self.dtype", "self._dtype")), ("keep_missed", ("self.keep_missed",)),
+                           ("_meta_data", ("self._meta_data.copy()", "dict(self._meta_data)"))):
+            if got.get(attr) not in want:
+                probs[inc].append(f"{attr} <- `{got.get(attr)}`")
+    ctx.check(npaths[True] >= 1 and not probs[True], rule, "HistogramBase.copy:with-contents",
+              "frequencies, errors2 and missed are copies of the source's stores on every path; dtype, keep_missed, meta data taken over",
+              "copy() does not carry over: " + "; ".join(sorted(set(probs[True]))[:3]), cp.where)
+    ctx.check(npaths[False] >= 1 and not probs[False], rule, "HistogramBase.copy:emptied",
+              "frequencies, errors2 and missed are zeros of the source's shapes; dtype, keep_missed, meta data taken over",
+              "copy(include_frequencies=False): " + "; ".join(sorted(set(probs[False]))[:3]), cp.where)
+
+
 def run(ctx):
     m = ctx.model
     ctx.rule("C12.a", "every mutable component of the histogram returned by a public non-in-place operation is FRESH", 25)
@@ -183,8 +234,23 @@ def run(ctx):
     for defcls, name in INPLACE:
         check_inplace(ctx, m, "C12.d", defcls, name)
 
+    # summary assumed by the ownership interpreter: the merged meta data of a + b / a - b is a new dict on every path
+    mm = m.cls("HistogramBase").methods.get("_merge_meta_data")
+    if mm is None:
+        raise AnalysisError("HistogramBase._merge_meta_data not found (summary of the ownership interpreter)")
+    ctx.saw(mm)
+    rets = [n.value for n in ast.walk(mm.node) if isinstance(n, ast.Return)]
+    def _fresh_dict(v):
+        return isinstance(v, (ast.Dict, ast.DictComp)) or (isinstance(v, ast.Call) and (
+            U(v.func) in ("dict", "copy.copy", "copy.deepcopy") or (isinstance(v.func, ast.Attribute) and v.func.attr == "copy")))
+    shared = [U(v)[:60] for v in rets if v is None or not _fresh_dict(v)]
+    ctx.check(bool(rets) and not shared, "C12.a", "HistogramBase._merge_meta_data:fresh", f"{len(rets)} return(s), each a newly built dict",
+              f"_merge_meta_data returns `{shared[0] if shared else None}` - an operand's own meta-data dict becomes the result's "
+              "(renaming the sum renames the operand)", mm.where)
+
     # ---- C12.b copy completeness ----------------------------------------------------------------
     ctx.rule("C12.b", "copy() definitely assigns, on every path, every instance attribute the __init__ chain assigns", 4)
+    check_copy_contents(ctx, "C12.b", m)
     _copy_completeness(ctx, m)
 
     # ---- C12.c class-level mutables ------------------------------------------------------------------
